@@ -7,19 +7,23 @@
    `try/except`, slices with Python's index normalisation, `%` that raises on zero,
    insertion-ordered dictionaries.  Executable definitions only. *)
 From MV Require Import Base.
+From Coq Require Import String.
 
 
 Local Open Scope Z_scope.
 
 (* ---------- exceptions -------------------------------------------------- *)
 
+(* the key a KeyError carries: an overhang (Seq) or a registry key (str) *)
+Inductive pykey := KeySeq (w : list letter) | KeyStr (s : string).
+
 (* every exception the translated code can raise, documented MoClo errors first *)
 Inductive pyexc :=
 | XInvalidSequence                      (* moclo.errors.InvalidSequence *)
 | XIllegalSite                          (* moclo.errors.IllegalSite (an InvalidSequence) *)
 | XDuplicateModules (a b : nat)         (* moclo.errors.DuplicateModules(a, b): object ids *)
-| XMissingModule (o : list letter)      (* moclo.errors.MissingModule(start_overhang) *)
-| XKeyError (k : list letter)
+| XMissingModule (o : pykey)            (* moclo.errors.MissingModule(start_overhang) *)
+| XKeyError (k : pykey)
 | XIndexError
 | XTypeError
 | XValueError
